@@ -39,6 +39,38 @@ fn sets_by_id(g: &Grammar) -> Result<(Vec<String>, Vec<(Option<String>, String, 
     Ok((out, w, a.run.accepted))
 }
 
+/// names of the callback methods of the emitted `ParserCallbacks` trait (the interface a user
+/// implements), and the sorted lines of the emitted file
+fn emitted_interface(text: &str) -> Option<(std::collections::BTreeSet<String>, Vec<String>)> {
+    let dir = lab::scratch_root().join(format!("c15-emit-{:?}", std::thread::current().id()).replace(['(', ')'], ""));
+    let _ = std::fs::remove_dir_all(&dir);
+    let t2 = text.to_string();
+    let d2 = dir.clone();
+    let ok = lw::catch(move || lw::emit(&t2, &d2).is_ok()).unwrap_or(false);
+    let generated = std::fs::read_to_string(dir.join("generated.rs")).ok();
+    let _ = std::fs::remove_dir_all(&dir);
+    if !ok {
+        return None;
+    }
+    let generated = generated?;
+    let mut names = std::collections::BTreeSet::new();
+    let mut inside = false;
+    for l in generated.lines() {
+        if l.starts_with("pub trait ParserCallbacks") {
+            inside = true;
+        } else if inside && l.starts_with('}') {
+            break;
+        } else if inside {
+            if let Some(p) = l.trim_start().strip_prefix("fn ") {
+                names.insert(p.split(['(', '<']).next().unwrap_or("").to_string());
+            }
+        }
+    }
+    let mut lines: Vec<String> = generated.lines().map(|l| l.to_string()).collect();
+    lines.sort();
+    Some((names, lines))
+}
+
 fn moves_list_behind_rule(g: &Grammar) -> bool {
     let d = g.decls();
     let first_rule = d.iter().position(|x| matches!(x, Decl::Rule(_))).unwrap_or(d.len());
@@ -262,6 +294,7 @@ pub fn run(ctx: &Ctx) -> i32 {
                     }
                     let start = items.len();
                     items.push((g.clone(), print(g).text));
+                    let base_iface = emitted_interface(&print(g).text);
                     let mut d = Dice::new(istream);
                     for _ in 0..k_perm {
                         let v = ggen::permute_decls(g, &mut d);
@@ -286,6 +319,19 @@ pub fn run(ctx: &Ctx) -> i32 {
                                     let i = sets0.iter().zip(&sets1).position(|(a, b)| a != b).unwrap_or(0);
                                     vs.push(Violation { sig: "sets-differ".into(), what: format!("analysis sets of regex node {i} differ after reordering declarations: {} vs {}", sets0[i], sets1[i]), replay });
                                     continue;
+                                }
+                                // the callback interface of the emitted parser (which create / delete / predicate /
+                                // action / assertion callbacks exist) is part of its behaviour
+                                if let (Some((n0, l0)), Some((n1, l1))) = (base_iface.as_ref(), emitted_interface(&text).as_ref()) {
+                                    ev.label("emitted_interfaces_compared");
+                                    if n0 != n1 {
+                                        let diff: Vec<&String> = n0.symmetric_difference(n1).collect();
+                                        vs.push(Violation { sig: "callback-interface-differs".into(), what: format!("the emitted ParserCallbacks trait differs after reordering declarations: {diff:?} exist in only one of the two"), replay });
+                                        continue;
+                                    }
+                                    if l0 != l1 {
+                                        ev.label("emitted_lines_differ_as_multisets");
+                                    }
                                 }
                                 items.push((v, text));
                             }
